@@ -1,0 +1,81 @@
+//go:build verif
+
+// Package verifhook emits ndjson trace events and env-driven failpoints for
+// the external verification harness. It is compiled in only with -tags verif.
+package verifhook
+
+import (
+	"encoding/json"
+	"errors"
+	"os"
+	"strings"
+	"sync"
+)
+
+var (
+	mu  sync.Mutex
+	seq int
+	out *os.File
+)
+
+// Enabled reports whether the hooks are compiled in.
+const Enabled = true
+
+func file() *os.File {
+	if out != nil {
+		return out
+	}
+	path := os.Getenv("MOCKERY_VERIF_TRACE")
+	if path == "" {
+		return nil
+	}
+	f, err := os.OpenFile(path, os.O_APPEND|os.O_CREATE|os.O_WRONLY, 0o644)
+	if err != nil {
+		return nil
+	}
+	out = f
+	return out
+}
+
+// Emit appends one event to the trace file named by MOCKERY_VERIF_TRACE.
+// kv is a flat list of alternating keys and values.
+func Emit(ev string, kv ...any) {
+	mu.Lock()
+	defer mu.Unlock()
+	f := file()
+	if f == nil {
+		return
+	}
+	seq++
+	rec := map[string]any{"seq": seq, "ev": ev}
+	for i := 0; i+1 < len(kv); i += 2 {
+		if k, ok := kv[i].(string); ok {
+			rec[k] = kv[i+1]
+		}
+	}
+	b, err := json.Marshal(rec)
+	if err != nil {
+		return
+	}
+	_, _ = f.Write(append(b, '\n'))
+}
+
+// Fail returns an error when MOCKERY_VERIF_FAIL lists "point:key" (or
+// "point:*"); entries are separated by commas.
+func Fail(point string, key string) error {
+	spec := os.Getenv("MOCKERY_VERIF_FAIL")
+	if spec == "" {
+		return nil
+	}
+	for _, ent := range strings.Split(spec, ",") {
+		p, k, ok := strings.Cut(ent, ":")
+		if !ok || p != point {
+			continue
+		}
+		if k == "*" || k == key || strings.HasSuffix(key, k) {
+			Emit("Failpoint", "point", point, "key", key)
+			return errors.New("verifhook: injected failure at " + point + " for " + key)
+		}
+	}
+	return nil
+}
